@@ -40,6 +40,10 @@ type FlowDef struct {
 	// OmitEgress: the exporter's template has no egressNetworkPolicyRuleAction element (only used
 	// for flows that are ready at once and have no egress action to report)
 	OmitEgress bool `json:"omit_egress,omitempty"`
+	// OmitPeerPod: the source node's exporter has no destinationPodName element in its template. Only
+	// for inter-node flows whose destination node never reports (merging a destination-node record
+	// into a record that lacks the element is not something the library supports).
+	OmitPeerPod bool `json:"omit_peer_pod,omitempty"`
 }
 
 // Corr holds the correlate fields one node can supply about a flow.
@@ -63,7 +67,7 @@ func (f FlowDef) Key() intermediate.FlowKey {
 // Rec is one flow record as an exporter would send it.
 type Rec struct {
 	Flow     int       `json:"flow"`
-	Side     string    `json:"side"` // "S" source-node form, "D" destination-node form (only kind InterNode has both)
+	Side     string    `json:"side"` // "S" source-node form, "D" destination-node form (only kind InterNode has both); for that kind also "N" (neither Pod name set) and "B" (both set): records the library cannot attribute to a node
 	Start    uint32    `json:"start"`
 	End      uint32    `json:"end"`
 	Tot      [4]uint64 `json:"tot"` // packetTotal, octetTotal, reversePacketTotal, reverseOctetTotal
@@ -260,16 +264,22 @@ func RecordElements(f FlowDef, r Rec) []entities.InfoElementWithValue {
 		c = f.CorrD
 	default:
 		flowType = registry.FlowTypeInterNode
-		if r.Side == "D" {
+		switch r.Side {
+		case "D":
 			dstPod = "pod-dst"
 			c = f.CorrD
-		} else {
+		case "N":
+		case "B":
+			srcPod, dstPod = "pod-src", "pod-dst"
+		default:
 			srcPod = "pod-src"
 		}
 	}
 	u8("flowType", flowType)
 	str("sourcePodName", srcPod)
-	str("destinationPodName", dstPod)
+	if !(f.OmitPeerPod && f.Kind != KindIntraNode && dstPod == "") {
+		str("destinationPodName", dstPod)
+	}
 	str("sourcePodNamespace", c.SrcNS)
 	str("sourceNodeName", c.SrcNode)
 	str("destinationPodNamespace", c.DstNS)
